@@ -163,20 +163,20 @@ theorem checkAnn_sound_callfree {P : Prog} {f : Nat} {fn : Function} {anns : Ann
 function of `P` passes `checkAnn` with its annotations, then every state reachable from an entry
 state under well-formed events satisfies the whole-frame-stack invariant `Inv` (current frame at an
 annotated pc or exactly exhausted, relative stack height = `ann.height`, relative locals ≥
-`ann.locals`, every suspended caller expecting exactly one value, well-formed closures, a result
-when the last frame returns), and no transition from it fails structurally. The step may still
+`ann.locals`, every suspended caller expecting exactly one value, well-formed closures, exactly
+one value over the `s0` cells that were below the argument when the last frame returns), and no transition from it fails structurally. The step may still
 fail with `TypeMismatch` / `FieldAccessInvalid` / `CallInvalid` / `InvalidArgument` — that is C01.
 (`indicesOk P` is not needed as a hypothesis: `checkAnn` checks the static indices of every
 reachable instruction.) -/
 def CheckAnnSoundStatement : Prop :=
-  ∀ (P : Prog) (A : Array Anns), AllChecked P A →
-    ∀ (p0 p : Proc), EntryWF P p0 → ReachWF P p0 p →
-      Inv P A p ∧
+  ∀ (P : Prog) (A : Array Anns) (s0 : Nat), AllChecked P A →
+    ∀ (p0 p : Proc), EntryWF P s0 p0 → ReachWF P p0 p →
+      Inv P A s0 p ∧
       ∀ ev, EventWF P ev → ∀ e, transition P p ev = some (.error e) → e.isStructural = false
 
 /-- **C07 headline theorem: `checkAnn` is sound for M-VM** (the full statement above). -/
 theorem checkAnn_sound : CheckAnnSoundStatement :=
-  fun _ _ hA _ _ h0 hr => checkAnn_sound_full hA h0 hr
+  fun _ _ _ hA _ _ h0 hr => checkAnn_sound_full hA h0 hr
 
 /-- `Executor::spawn_process` produces an entry state: an existing function, as many well-formed
 captures as it declares, a well-formed argument. -/
@@ -184,7 +184,7 @@ theorem entryWF_spawn {P : Prog} {fi : Nat} {fn : Function} {caps : List Val} {a
     {persistent : Bool}
     (hfn : P.functions[fi]? = some fn) (hlen : caps.length = fn.captures)
     (hcaps : AllWF P caps) (harg : arg.wf P = true) :
-    EntryWF P (Proc.spawn pid fi caps arg persistent) where
+    EntryWF P 0 (Proc.spawn pid fi caps arg persistent) where
   frame := ⟨_, fn, rfl, rfl, hfn, hlen, by simp [Proc.spawn, Frame.new, hlen]⟩
   stack := by simp [Proc.spawn]
   stackWF := by simpa [Proc.spawn] using ⟨harg, AllWF.nil⟩
@@ -197,14 +197,14 @@ theorem entryWF_spawn {P : Prog} {fi : Nat} {fn : Function} {caps : List Val} {a
 `Select` in progress), its current frame is at an annotated pc with exactly the annotated stack
 height over the frame's base and at least the annotated locals, or is exactly exhausted with one
 value (the result) over the base. -/
-theorem running_shape {P : Prog} {A : Array Anns} (hA : AllChecked P A) {p0 p : Proc}
-    (h0 : EntryWF P p0) (hr : ReachWF P p0 p) {f : Frame} {rest : List Frame}
+theorem running_shape {P : Prog} {A : Array Anns} {s0 : Nat} (hA : AllChecked P A) {p0 p : Proc}
+    (h0 : EntryWF P s0 p0) (hr : ReachWF P p0 p) {f : Frame} {rest : List Frame}
     (hfr : p.frames = f :: rest) (hpark : p.park = .none) (hsel : p.selectState = none) :
     ∃ fn sb, P.functions[f.functionIndex]? = some fn ∧
       ((f.counter = fn.instructions.size ∧ p.stack.length = sb + 1 ∧ f.localsBase ≤ p.locals.length) ∨
        (∃ a, (annsOf A f.functionIndex)[f.counter]? = some (some a) ∧ f.counter < fn.instructions.size ∧
           p.stack.length = sb + a.height ∧ f.localsBase + a.locals ≤ p.locals.length)) := by
-  obtain ⟨hinv, _⟩ := checkAnn_sound P A hA p0 p h0 hr
+  obtain ⟨hinv, _⟩ := checkAnn_sound P A s0 hA p0 p h0 hr
   obtain ⟨_, sb, htop, _⟩ := hinv.unpack hfr
   cases htop with
   | exhausted fn hfn hpc hs hl _ _ => exact ⟨fn, sb, hfn, Or.inl ⟨hpc, hs, hl⟩⟩
@@ -215,14 +215,14 @@ theorem running_shape {P : Prog} {A : Array Anns} (hA : AllChecked P A) {p0 p : 
 
 /-- … and when its last frame has returned, exactly one value — the result — is there to take:
 `finish` never records `StackUnderflow`. -/
-theorem result_present {P : Prog} {A : Array Anns} (hA : AllChecked P A) {p0 p : Proc}
-    (h0 : EntryWF P p0) (hr : ReachWF P p0 p) (hfr : p.frames = []) (hres : p.result = none) :
+theorem result_present {P : Prog} {A : Array Anns} {s0 : Nat} (hA : AllChecked P A) {p0 p : Proc}
+    (h0 : EntryWF P s0 p0) (hr : ReachWF P p0 p) (hfr : p.frames = []) (hres : p.result = none) :
     ∃ v, (finish p).result = some (.ok v) := by
-  obtain ⟨hinv, _⟩ := checkAnn_sound P A hA p0 p h0 hr
+  obtain ⟨hinv, _⟩ := checkAnn_sound P A s0 hA p0 p h0 hr
   have := hinv.shape
   rw [hfr] at this
   cases hst : p.stack with
-  | nil => exact absurd hst (this.2 hres)
+  | nil => have := this.2 hres; simp [hst] at this
   | cons v s => exact ⟨v, by simp [finish, hres, hst]⟩
 
 /-! ### Examples: the hypotheses are satisfiable by concrete, non-trivial objects -/
@@ -263,7 +263,7 @@ example : AllChecked exProg #[inferAnn exProg 0] := by
   subst this
   decide +kernel
 
-example : EntryWF exProg (Proc.spawn 7 0 [] (.int 0)) :=
+example : EntryWF exProg 0 (Proc.spawn 7 0 [] (.int 0)) :=
   entryWF_spawn (fn := exFn) rfl rfl (by simp [AllWF]) rfl
 
 /-- A program with a call: `f1` calls `f0` on its argument (`Function:0`, `Call`); both pass. -/
